@@ -318,6 +318,12 @@ def values_of(t):
         return t[1][1]
     if t[0] == "sel" and t[2] == t[3]:
         return t[2]
+    if t[0] == "sel" and t[1][0] == "call" and t[1][1] == ("builtin", "isinstance") and len(t[1][2]) == 2 \
+            and t[1][2][0] == t[2] and t[1][2][1] == ("mod", "numpy.ndarray"):
+        return t[2]  # `x if isinstance(x, np.ndarray) else <coerced x>`: the inputs the properties speak of are arrays
+    if t[0] == "sel" and t[1][0] == "call" and t[1][1] == ("builtin", "hasattr") and len(t[1][2]) == 2 \
+            and t[1][2][1] in (("const", "to_numpy"), ("const", "values"), ("const", "tolist")) and t[1][2][0] == t[3]:
+        return t[3]  # `x.to_numpy() if hasattr(x, "to_numpy") else x`: arrays and lists have no such method
     if t[0] == "old":
         return t[1]
     return t
